@@ -10591,23 +10591,33 @@ CK_RV SoftHSM::deriveDH
 					}
 				}
 
-				// Get the KCV
+				// Get the KCV of the key value that is stored, computed
+				// the way its key type defines
 				switch (keyType)
 				{
 					case CKK_GENERIC_SECRET:
-						secret->setBitLen(byteLen * 8);
-						plainKCV = secret->getKeyCheckValue();
+					{
+						SymmetricKey kcvKey(byteLen * 8);
+						bOK = bOK && kcvKey.setKeyBits(secretValue);
+						plainKCV = kcvKey.getKeyCheckValue();
 						break;
+					}
 					case CKK_DES:
 					case CKK_DES2:
 					case CKK_DES3:
-						secret->setBitLen(byteLen * 7);
-						plainKCV = ((DESKey*)secret)->getKeyCheckValue();
+					{
+						DESKey kcvKey(byteLen * 7);
+						bOK = bOK && kcvKey.setKeyBits(secretValue);
+						plainKCV = kcvKey.getKeyCheckValue();
 						break;
+					}
 					case CKK_AES:
-						secret->setBitLen(byteLen * 8);
-						plainKCV = ((AESKey*)secret)->getKeyCheckValue();
+					{
+						AESKey kcvKey(byteLen * 8);
+						bOK = bOK && kcvKey.setKeyBits(secretValue);
+						plainKCV = kcvKey.getKeyCheckValue();
 						break;
+					}
 					default:
 						bOK = false;
 						break;
@@ -10944,23 +10954,33 @@ CK_RV SoftHSM::deriveECDH
 					}
 				}
 
-				// Get the KCV
+				// Get the KCV of the key value that is stored, computed
+				// the way its key type defines
 				switch (keyType)
 				{
 					case CKK_GENERIC_SECRET:
-						secret->setBitLen(byteLen * 8);
-						plainKCV = secret->getKeyCheckValue();
+					{
+						SymmetricKey kcvKey(byteLen * 8);
+						bOK = bOK && kcvKey.setKeyBits(secretValue);
+						plainKCV = kcvKey.getKeyCheckValue();
 						break;
+					}
 					case CKK_DES:
 					case CKK_DES2:
 					case CKK_DES3:
-						secret->setBitLen(byteLen * 7);
-						plainKCV = ((DESKey*)secret)->getKeyCheckValue();
+					{
+						DESKey kcvKey(byteLen * 7);
+						bOK = bOK && kcvKey.setKeyBits(secretValue);
+						plainKCV = kcvKey.getKeyCheckValue();
 						break;
+					}
 					case CKK_AES:
-						secret->setBitLen(byteLen * 8);
-						plainKCV = ((AESKey*)secret)->getKeyCheckValue();
+					{
+						AESKey kcvKey(byteLen * 8);
+						bOK = bOK && kcvKey.setKeyBits(secretValue);
+						plainKCV = kcvKey.getKeyCheckValue();
 						break;
+					}
 					default:
 						bOK = false;
 						break;
@@ -11298,23 +11318,33 @@ CK_RV SoftHSM::deriveEDDSA
 					}
 				}
 
-				// Get the KCV
+				// Get the KCV of the key value that is stored, computed
+				// the way its key type defines
 				switch (keyType)
 				{
 					case CKK_GENERIC_SECRET:
-						secret->setBitLen(byteLen * 8);
-						plainKCV = secret->getKeyCheckValue();
+					{
+						SymmetricKey kcvKey(byteLen * 8);
+						bOK = bOK && kcvKey.setKeyBits(secretValue);
+						plainKCV = kcvKey.getKeyCheckValue();
 						break;
+					}
 					case CKK_DES:
 					case CKK_DES2:
 					case CKK_DES3:
-						secret->setBitLen(byteLen * 7);
-						plainKCV = ((DESKey*)secret)->getKeyCheckValue();
+					{
+						DESKey kcvKey(byteLen * 7);
+						bOK = bOK && kcvKey.setKeyBits(secretValue);
+						plainKCV = kcvKey.getKeyCheckValue();
 						break;
+					}
 					case CKK_AES:
-						secret->setBitLen(byteLen * 8);
-						plainKCV = ((AESKey*)secret)->getKeyCheckValue();
+					{
+						AESKey kcvKey(byteLen * 8);
+						bOK = bOK && kcvKey.setKeyBits(secretValue);
+						plainKCV = kcvKey.getKeyCheckValue();
 						break;
+					}
 					default:
 						bOK = false;
 						break;
@@ -11891,30 +11921,37 @@ CK_RV SoftHSM::deriveSymmetric
 					}
 				}
 
-				// Get the KCV
-				SymmetricKey* secret = new SymmetricKey();
-				secret->setKeyBits(secretValue);
+				// Get the KCV of the key value that is stored, computed
+				// the way its key type defines
 				switch (keyType)
 				{
 					case CKK_GENERIC_SECRET:
-						secret->setBitLen(byteLen * 8);
-						plainKCV = secret->getKeyCheckValue();
+					{
+						SymmetricKey kcvKey(byteLen * 8);
+						bOK = bOK && kcvKey.setKeyBits(secretValue);
+						plainKCV = kcvKey.getKeyCheckValue();
 						break;
+					}
 					case CKK_DES:
 					case CKK_DES2:
 					case CKK_DES3:
-						secret->setBitLen(byteLen * 7);
-						plainKCV = ((DESKey*)secret)->getKeyCheckValue();
+					{
+						DESKey kcvKey(byteLen * 7);
+						bOK = bOK && kcvKey.setKeyBits(secretValue);
+						plainKCV = kcvKey.getKeyCheckValue();
 						break;
+					}
 					case CKK_AES:
-						secret->setBitLen(byteLen * 8);
-						plainKCV = ((AESKey*)secret)->getKeyCheckValue();
+					{
+						AESKey kcvKey(byteLen * 8);
+						bOK = bOK && kcvKey.setKeyBits(secretValue);
+						plainKCV = kcvKey.getKeyCheckValue();
 						break;
+					}
 					default:
 						bOK = false;
 						break;
 				}
-				delete secret;
 
 				if (isPrivate)
 				{
